@@ -40,6 +40,7 @@ def check_one(arg):
 
 
 _WORD = re.compile(r"[A-Za-z_$][A-Za-z0-9_$]*|[0-9]+")
+_LIT = re.compile(r"'(?:[^'\n]|'')*'|\"(?:[^\"\n]|\"\")*\"")
 
 
 def check_catalogue(arg):
@@ -57,6 +58,12 @@ def check_catalogue(arg):
     if "F2PY_" in out.upper() and "F2PY_" not in src.upper():
         fails.append(("placeholder_in_regenerated_text", "an internal placeholder reached the regenerated text: %r"
                       % [l for l in out.split("\n") if "F2PY_" in l.upper()][:2], rep))
+    # character literals are reproduced character for character, each as often as it was written
+    lits_src = sorted(_LIT.findall(re.sub(r"(?m)^\s*!.*$", "", src)))
+    lits_out = sorted(_LIT.findall(out))
+    if lits_src != lits_out and "!" not in re.sub(_LIT, "", src):
+        fails.append(("character_literal_changed", "character literals of the source %r, of the regenerated text %r"
+                      % ([x for x in lits_src if x not in lits_out][:3], [x for x in lits_out if x not in lits_src][:3]), rep))
     squeezed = re.sub(r"[^a-z0-9_$]", "", out.lower())
     code = re.sub(r"'[^']*'|\"[^\"]*\"", " ", src)
     code = re.sub(r"(?m)!.*$", " ", code)          # comments are dropped by this parse
